@@ -17,6 +17,10 @@ import native as N
 import mir, sym, opcheck as Q, listkernels as L, bridgekernels as BR
 
 
+def index_summaries(ik, tier):
+    return [ik.summarize(n, k) for n in range(L.NMAX.get(tier, 3) + 1) for k in L.IDX_KINDS]
+
+
 def bridge_summaries(bk, tier):
     return [bk.summarize(m, n) for m in ("map", "filter") for n in range(BR.NMAX.get(tier, 3) + 1)]
 
@@ -118,6 +122,32 @@ def check(scratch, nat, a, t0):
         info["paths"][profile] += sum(len(s.paths) for s in bsum)
         for s in bsum:
             pf += BR.check_summary(s, profile, qs, timeout_ms, V.seed(), "C13")
+        # index read a[i] (instruction vec_op, index in a local variable of kind int / bigint / byte, any value)
+        ik = L.ListIndexKernels(lk)
+        info["functions"][profile].update(ik.encoded_functions())
+        isum = index_summaries(ik, a.tier)
+        ni, mismi = L.index_validate(isum, nat.eval_raw, release)
+        info["validation_vectors"][profile + ":index-read"] = ni
+        if mismi:
+            for m in mismi[:10]:
+                log("  TRANSLATOR MISMATCH", m)
+            raise V.Inconclusive("engine B disagrees with the real list indexing on %d of %d vectors (%s), first: %r" % (len(mismi), ni, profile, mismi[0]))
+        info["paths"][profile] += sum(len(s.paths) for s in isum)
+        for s in isum:
+            pf += L.index_check(s, profile, qs, timeout_ms, V.seed(), "C13")
+        # a[k] op= v through an element pointer (bin_op_assign without a name + HeapPrimitive::update)
+        ak = L.ElemAssignKernels(lk)
+        info["functions"][profile].update(ak.encoded_functions())
+        asum = [ak.summarize(*sh) for sh in L.assign_shapes(a.tier)]
+        na, misma = L.assign_validate(asum, nat.eval_raw, release)
+        info["validation_vectors"][profile + ":element-assignment"] = na
+        if misma:
+            for m in misma[:10]:
+                log("  TRANSLATOR MISMATCH", m)
+            raise V.Inconclusive("engine B disagrees with the real element assignment on %d of %d vectors (%s), first: %r" % (len(misma), na, profile, misma[0]))
+        info["paths"][profile] += sum(len(s.paths) for s in asum)
+        for s in asum:
+            pf += L.assign_check(s, profile, qs, timeout_ms, V.seed())
         confirm(pf, nat, release)
         findings += pf
         log("  [%s] %d obligations so far, %d candidate findings" % (profile, qs.obligations, len(pf)))
@@ -172,7 +202,7 @@ def report(a, findings, qs, info, t0):
                          "sequence model: /verif/mirsym/listkernels.py oracle(), /verif/mirsym/bridgekernels.py expected_result()",
                          "the callback-bridge driver loop of Function::run (6 lines) is replicated in bridgekernels._drive and in the native harness"],
         "functions_encoded": info["functions"], "paths": info["paths"],
-        "bounds": "list methods len, push, remove, reverse, clear, clone, index_of, join (other list / the receiver itself): receiver of 0..%d elements, argument list of 0..%d elements, every element and every index/value argument a full-width symbolic i32 (elements of kind int only); one operation from an arbitrary state (inductive step). map / filter: receiver of 0..%d elements, the built-in plus the three bridge methods from their MIR, the driver loop of Function::run replicated, callback results arbitrary (int / bool). Maps, index read/assignment, `==`, longer lists, other element kinds, callbacks that fail or mutate the list outside" % (L.NMAX.get(a.tier, 3), L.MMAX.get(a.tier, 2), BR.NMAX.get(a.tier, 3)),
+        "bounds": "list methods len, push, remove, reverse, clear, clone, index_of, join (other list / the receiver itself): receiver of 0..%d elements, argument list of 0..%d elements, every element and every index/value argument a full-width symbolic i32 (elements of kind int only); one operation from an arbitrary state (inductive step). map / filter: receiver of 0..%d elements, the built-in plus the three bridge methods from their MIR, the driver loop of Function::run replicated, callback results arbitrary (int / bool). Index read a[i] (vec_op with the index in a local variable of kind int / bigint / byte, any value): the result is a reference to element i of the same list iff 0 <= i < len, else the instruction fails. Compound element assignment a[k] op= v (bin_op_assign through an element pointer, op in += -= *= /= %%=, int elements and value): position k holds e[k] op v with the operands in this order, other elements untouched, the value of the assignment is the new element, a failing assignment changes nothing (which operand values make the arithmetic fail is C05/C17). Maps, plain index assignment (`mut`), `==`, longer lists, other element kinds, callbacks that fail or mutate the list outside" % (L.NMAX.get(a.tier, 3), L.MMAX.get(a.tier, 2), BR.NMAX.get(a.tier, 3)),
         "vacuity_witnesses": info["witnesses"],
         "solver_time_s": round(qs.solver_s, 2),
         "samples": qs.samples[:8] + [fdict(f) for f in list(new.values())[:4]],
